@@ -30,6 +30,7 @@ type C06Proc struct {
 	TmpOtherFS bool `json:"tmp_other_fs,omitempty"`
 	// Schedule: map-iteration schedule of the process (the ground truth holds under every order)
 	Schedule *sim.Schedule `json:"schedule,omitempty"`
+	Parallel bool          `json:"parallel,omitempty"` // GOMAXPROCS=8
 }
 
 type C06Scenario struct {
@@ -68,7 +69,11 @@ func (C06) Generate(t *tape.Tape, tier string) interface{} {
 		nd = 2
 	}
 	for d := 0; d < nd; d++ {
-		sc.Dirs = append(sc.Dirs, gen.GenImportProject(t, maxFiles))
+		mf := maxFiles
+		if d == 0 && t.Bool(1, 60) {
+			mf = 150 // a project of up to 150 files (drawn uniformly): whatever depends on the number of files
+		}
+		sc.Dirs = append(sc.Dirs, gen.GenImportProject(t, mf))
 		sc.Noise = append(sc.Noise, t.Bool(1, 4))
 		sc.Deep = append(sc.Deep, t.Bool(1, 6))
 	}
@@ -112,6 +117,7 @@ func (C06) Generate(t *tape.Tape, tier string) interface{} {
 	}
 	sc.CwdIgnore = t.Bool(1, 3)
 	for i := range sc.Procs {
+		sc.Procs[i].Parallel = t.Bool(1, 6)
 		if t.Bool(1, 3) {
 			sc.Procs[i].Schedule = &sim.Schedule{Tail: []string{"seeded", "reverse", "rotate"}[t.Pick(3)], Seed: t.Seed64()}
 		}
@@ -213,7 +219,10 @@ func (C06) Run(ctx *sim.RunCtx, data json.RawMessage) (*sim.Outcome, error) {
 	justEdited := map[int]bool{}
 	judgeTruth := map[int][]gen.ImportFile{}
 	for pi, p := range sc.Procs {
-		proc := &sim.Proc{Schedule: sim.Canonical(), Cwd: ctx.Dir, TmpOtherFS: p.TmpOtherFS}
+		proc := &sim.Proc{Schedule: sim.Canonical(), Cwd: ctx.Dir, TmpOtherFS: p.TmpOtherFS, Parallel: p.Parallel}
+		if p.Parallel {
+			out.Faults["real-parallelism"]++
+		}
 		if p.Schedule != nil {
 			proc.Schedule = *p.Schedule
 			out.Faults["map-perm"]++
